@@ -609,3 +609,39 @@ def gen_relay2(rng):
     order = list(range(3))
     rng.shuffle(order)
     return {"comps": permute(comps, order), "end": scc * rng.choice([2, 3, 4])}
+
+
+def gen_pull_ring(rng):
+    """A ring that passes through a pull-based component, with (part of) the resolving delay DOWNSTREAM of it:
+    A -> [up] -> P(pull-based) -> [down] -> B -> A.  The driver must explore P for the time B will actually ask
+    (B's next time minus `down`), not for B's own next time."""
+    unit = rng.choice(UNITS)
+    a = {"kind": "T", "start": 0, "steps": gen_steps(rng, unit), "initpull": False, "nout": 1, "inputs": []}
+    b = {"kind": "T", "start": 0, "steps": gen_steps(rng, unit), "initpull": False, "nout": 1, "inputs": []}
+    total = max(a["steps"]) + max(b["steps"])
+    down = rng.choice([total, total, total + unit, rng.randint(1, total)])
+    up = max(0, total - down) + rng.choice([0, 0, 1])
+
+    def split(d):
+        parts = rng.choice([1, 1, 2])
+        ds, rest = [], d
+        for _ in range(parts - 1):
+            x = rng.randint(0, rest)
+            ds.append(x)
+            rest -= x
+        ds.append(rest)
+        ch = [["fixed", x] for x in ds]
+        for _ in range(rng.choice([0, 0, 1])):
+            ch.insert(rng.randrange(len(ch) + 1), ["pass"])
+        return ch
+
+    p = {"kind": "P", "nout": 1, "inputs": [{"src": [0, 0], "chain": split(up) if up else ([["pass"]] if rng.random() < 0.3 else [])}]}
+    b["inputs"].append({"src": [1, 0], "chain": split(down)})
+    a["inputs"].append({"src": [2, 0], "chain": [["pass"]] if rng.random() < 0.3 else []})
+    comps = [a, p, b]
+    if rng.random() < 0.3:  # an unrelated component keeps the least-advanced choice interesting
+        comps.append({"kind": "T", "start": 0, "steps": gen_steps(rng, unit), "initpull": False, "nout": 0, "inputs": []})
+    order = list(range(len(comps)))
+    rng.shuffle(order)
+    maxstep = max(max(c["steps"]) for c in comps if c["kind"] == "T")
+    return {"comps": permute(comps, order), "end": rng.choice([2, 3, 5]) * maxstep + rng.choice([0, 1])}
